@@ -109,12 +109,59 @@ def check_model_case(case, ctx):
         w = {'case': dict(case, args=[args]), 'inputs': in_ids,
              'outputs': out_ids, 'arguments': args,
              'frozen_values_holding_NONE': frozen_none}
+        if n_call % 3 == 2:
+            # two calls in a row, no model calculation in between: the first
+            # one (other arguments) must leave nothing behind
+            try:
+                func(*[_lib_arg(a) for a in case['args'][n_call - 1]])
+                ctx.count('monitor.back-to-back-calls')
+            except Exception:
+                pass
         try:
             res = func(*lib_args)
             got = wbrun.observed_outputs(desc, res, out_keys, out_ids)
         except Exception as ex:
             got = None
             exc = ex
+        if got is not None:
+            # where the inverse of a range input published the values of members
+            # that no node defines (into the solution the function reads blanks
+            # from), they must be those of *this* call
+            sol_ = getattr(m.dsp, 'solution', None) or {}
+            inv_ = set()
+            try:
+                import schedula as sh_
+                from formulas.cell import InvRangesAssembler
+                for nd in func.dsp.function_nodes.values():
+                    f_ = nd['function']
+                    if isinstance(f_, InvRangesAssembler) and sh_.SELF in nd['inputs']:
+                        inv_.add(f_.assembler.output)
+            except Exception:
+                pass
+            for (kind, key), a in zip(case['I'], args):
+                if kind != 'range' or not isinstance(a, list):
+                    continue
+                if gw.rect_key(desc, *key) not in inv_:
+                    continue    # the function does not run the inverse of this range
+                b_, s_, c1, r1, c2, r2 = key
+                for ri, r in enumerate(range(r1, r2 + 1)):
+                    for ci, c in enumerate(range(c1, c2 + 1)):
+                        nid = gw.key_of(desc, b_, s_, c, r)
+                        if nid in m.dsp.nodes or nid not in sol_:
+                            continue
+                        ctx.count('monitor.published-member-current')
+                        try:
+                            pub = xl.canon(xl.scalar(sol_[nid]))
+                        except Exception:
+                            continue
+                        sup = wbrun.canon_value(a[ri][ci])
+                        if sup in (xl.BLANK, xl.c_text('')):
+                            continue
+                        if not xl.same(pub, sup):
+                            ctx.violation('stale-published-member:%s' % wbrun._cls(pub), dict(
+                                w, cell=nid, call_number=n_call, observed=xl.show(pub),
+                                accepted=[xl.show(sup) + ' (the value supplied in this call)']))
+                            break
         try:
             sol = m.calculate(inputs=dict(zip(in_ids, lib_args)), outputs=out_ids)
             want = wbrun.observed_outputs(desc, sol, out_keys, out_ids)
@@ -137,6 +184,8 @@ def check_model_case(case, ctx):
                     '+'.join(sorted({i[0] for i in case['I']}))), dict(
                     w, cell=gw.key_of(desc, *k), observed=xl.show(got[k]),
                     accepted=[xl.show(want[k])]))
+        if n_call == 0:
+            _check_permuted(case, ctx, m, desc, in_ids, out_ids, out_keys)
         # reference with the inputs as constants
         ov = {}
         ok = True
@@ -182,6 +231,33 @@ def check_model_case(case, ctx):
                         accepted=[xl.show(r)]))
 
 
+def _check_permuted(case, ctx, m, desc, in_ids, out_ids, out_keys):
+    """The same cells compiled again with the node lists in another order."""
+    if len(in_ids) < 2 and len(out_ids) < 2:
+        return
+    args = case['args'][0]
+    lib_args = [_lib_arg(a) for a in args]
+    try:
+        f2 = m.compile(in_ids[::-1], out_ids[::-1])
+        res = f2(*lib_args[::-1])
+        got = wbrun.observed_outputs(desc, res, out_keys[::-1], out_ids[::-1])
+        sol = m.calculate(inputs=dict(zip(in_ids, lib_args)), outputs=out_ids)
+        want = wbrun.observed_outputs(desc, sol, out_keys, out_ids)
+    except Exception as ex:
+        ctx.count('permuted-raised')
+        return
+    ctx.count('monitor.permuted-recompile')
+    for k in out_keys:
+        if not xl.same(got[k], want[k], rel=1e-12):
+            ctx.violation('differs:permuted-recompile:%s->%s' % (
+                wbrun._cls(got[k]), wbrun._cls(want[k])), {
+                'case': dict(case, args=[args]), 'inputs': in_ids[::-1],
+                'outputs': out_ids[::-1], 'arguments': args[::-1],
+                'cell': gw.key_of(desc, *k), 'observed': xl.show(got[k]),
+                'accepted': [xl.show(want[k])]})
+            return
+
+
 def _frozen_none(func):
     """Diagnostic: pre-computed values of the compiled function that contain
     schedula's NONE token (a value that was never computed)."""
@@ -200,6 +276,9 @@ def _frozen_none(func):
 def make_model_case(seed, i):
     rng = random.Random('fvmon/C08/%s/%s' % (seed, i))
     desc = gw.gen(rng)
+    if i % 3 == 0:
+        from .c07 import _sparsify
+        _sparsify(rng, desc)      # rectangles with several unpopulated cells
     consts = wbrun.constant_cells(desc)
     forms = wbrun.formula_cells(desc)
     arrs = [k for k in wbrun.formula_cells(desc, True) if k not in forms]
@@ -258,6 +337,18 @@ def make_model_case(seed, i):
             # directly by some outputs
             forced = rng.choice(rnames)
             I = [['name', [forced]]] + [x for x in I if x[0] == 'cell'][:1]
+        sparse_in = None
+        if j == 2 and i % 3 == 0:
+            # a sparse rectangle is the input; outputs read its unpopulated
+            # members through other rectangles (assembled at call time)
+            sp = [r for r in _rect_nodes(desc) if 2 <= sum(
+                1 for c in range(r[2], r[4] + 1) for rr in range(r[3], r[5] + 1)
+                if not ev.populated((r[0], r[1], c, rr))) and (
+                r[4] - r[2] + 1) * (r[5] - r[3] + 1) <= 16]
+            if sp:
+                sparse_in = rng.choice(sp)
+                forced = None
+                I = [['range', list(sparse_in)]]
         targets = set()
         for x in I:
             if x[0] == 'name':
@@ -288,6 +379,13 @@ def make_model_case(seed, i):
         O = [list(k) for k in rng.sample(forms, min(len(forms), rng.randint(1, 4)))]
         if arrs and rng.random() < 0.4:
             O.append(list(rng.choice(arrs)))
+        if sparse_in:
+            b_, s_, c1, r1, c2, r2 = sparse_in
+            un = [(b_, s_, c, r) for c in range(c1, c2 + 1) for r in range(r1, r2 + 1)
+                  if not ev.populated((b_, s_, c, r))]
+            down = wbrun.downstream(desc, un)
+            dn = [list(k) for k in forms if k in down and list(k) not in O]
+            O += rng.sample(dn, min(len(dn), 4))
         if forced:
             down = wbrun.downstream(desc, sorted(targets))
             dn = [list(k) for k in forms if k in down and list(k) not in O]
@@ -630,7 +728,10 @@ def finalize(agg, tier):
                      ('monitor.formula-vs-literals', 2000), ('compiled', 150),
                      ('monitor.multiconst', 400),
                      ('monitor.circular-compiled-vs-interpreted', 600),
-                     ('monitor.model-calculated-between-calls', 300)):
+                     ('monitor.model-calculated-between-calls', 300),
+                     ('monitor.published-member-current', 100),
+                     ('monitor.permuted-recompile', 100),
+                     ('monitor.back-to-back-calls', 200)):
         if c.get(k, 0) < floor:
             inc.append('monitor %s saw %d events (< %d)' % (k, c.get(k, 0), floor))
     if c.get('compiled.with-frozen-values', 0) * 10 < 3 * c.get('compiled', 1):
